@@ -44,6 +44,7 @@ enum Fault {
     TypeErrorInUnusedLet,
     TypeErrorInUnreadScopedDefinition,
     TypeErrorInPrint,
+    TypeErrorInShorthandArgument,
 }
 
 const FAULTS: &[Fault] = &[
@@ -68,6 +69,7 @@ const FAULTS: &[Fault] = &[
     Fault::TypeErrorInUnusedLet,
     Fault::TypeErrorInUnreadScopedDefinition,
     Fault::TypeErrorInPrint,
+    Fault::TypeErrorInShorthandArgument,
 ];
 
 impl Fault {
@@ -94,6 +96,7 @@ impl Fault {
             Fault::TypeErrorInUnusedLet => "type_error_in_unused_let",
             Fault::TypeErrorInUnreadScopedDefinition => "type_error_in_unread_scoped_definition",
             Fault::TypeErrorInPrint => "type_error_in_print_argument",
+            Fault::TypeErrorInShorthandArgument => "type_error_in_shorthand_argument",
         }
     }
     /// conflicts between two statements
@@ -108,7 +111,7 @@ fn a(name: &str, v: GExpr) -> GAttr {
 
 /// statements to insert; the *last* is the one that fails (for two-sided faults the one before
 /// it is the other party)
-fn fault_stmts(f: Fault, cap: Option<&str>) -> Option<Vec<GStmt>> {
+fn fault_stmts(f: Fault, cap: Option<&str>, shorthand: Option<&str>) -> Option<Vec<GStmt>> {
     let n = || GExpr::var("zq_n");
     Some(match f {
         Fault::TypeErrorInCall => vec![stmt(StmtKind::Node(GVar::u("zq_n"))), stmt(StmtKind::AttrNode(n(), vec![a("zq_a", GExpr::call("plus", vec![GExpr::Int(1), GExpr::str("two")]))]))],
@@ -139,6 +142,10 @@ fn fault_stmts(f: Fault, cap: Option<&str>) -> Option<Vec<GStmt>> {
         Fault::TypeErrorInUnreadScopedDefinition => {
             let c = cap?;
             vec![stmt(StmtKind::Node(GVar::u("zq_n"))), stmt(StmtKind::Let(GVar::s(GExpr::cap(c), "zq_unread"), GExpr::call("plus", vec![GExpr::Int(1), GExpr::str("two")])))]
+        }
+        Fault::TypeErrorInShorthandArgument => {
+            let sh = shorthand?;
+            vec![stmt(StmtKind::Node(GVar::u("zq_n"))), stmt(StmtKind::AttrNode(n(), vec![GAttr { name: sh.to_string(), value: Some(GExpr::call("plus", vec![GExpr::Int(424242), GExpr::str("two")])) }]))]
         }
         Fault::TypeErrorInPrint => vec![stmt(StmtKind::Node(GVar::u("zq_n"))), stmt(StmtKind::Print(vec![GExpr::str("zq"), GExpr::call("plus", vec![GExpr::Int(424242), GExpr::str("two")])]))],
         Fault::ForNonList => vec![stmt(StmtKind::Let(GVar::u("zq_l"), GExpr::List(vec![GExpr::Int(1)]))), stmt(StmtKind::For(GUVar::new("zq_x"), GExpr::Set(vec![GExpr::var("zq_l")]), vec![]))],
@@ -210,7 +217,7 @@ fn fault_positions(f: Fault) -> (usize, Option<usize>) {
         Fault::ConflictingEdgeAttribute => (7, Some(5)),
         Fault::ConflictingNodeAttributeApart => (4, Some(2)),
         Fault::ElifNonBoolean => (0, None),
-        Fault::TypeErrorInUnusedLet | Fault::TypeErrorInUnreadScopedDefinition | Fault::TypeErrorInPrint => (1, None),
+        Fault::TypeErrorInUnusedLet | Fault::TypeErrorInUnreadScopedDefinition | Fault::TypeErrorInPrint | Fault::TypeErrorInShorthandArgument => (1, None),
     }
 }
 
@@ -293,6 +300,7 @@ impl Prop for C20 {
             }
         }
         let functions = stdlib();
+        let shorthand_name: Option<String> = base.shorthands().first().map(|s| s.name.clone());
         let blocks = list_blocks(&base);
         let wild = rng.chance(1, 3);
         for (bi, (si, depth, kind)) in blocks.iter().enumerate() {
@@ -300,7 +308,7 @@ impl Prop for C20 {
             let fault = FAULTS[(bi + rng.below(FAULTS.len())) % FAULTS.len()];
             let stanza_pool = base.stanzas()[*si].pool;
             let cap = stanza_pool.and_then(|p| POOL[p].caps.iter().find(|c| c.quant.is_empty()).map(|c| c.name));
-            let stmts = match fault_stmts(fault, cap) {
+            let stmts = match fault_stmts(fault, cap, shorthand_name.as_deref()) {
                 Some(s) => s,
                 None => continue,
             };
